@@ -39,5 +39,7 @@ Lex(L, t, pos, sc, acc) ==
         sc2 == IF eff.newState >= 0 THEN eff.newState ELSE sc
         rec == <<eff.tok, B(L, t, pos), B(L, t, pos + n), LineAt(L, t, pos), ColAt(L, t, pos)>>
     IN Lex(L, t, pos + n, sc2, IF eff.space THEN acc ELSE Append(acc, rec))
-Tokens(L, t) == Lex(L, t, 0, 0, <<>>)
+(* skipByteOrderMark (on by default): a byte order mark that opens the input is passed over; it still counts for offsets and columns. *)
+(* L.bom: the symbol that is U+FEFF, 0 if the alphabet has none.                                                                  *)
+Tokens(L, t) == Lex(L, t, IF Len(t) > 0 /\ L.bom # 0 /\ t[1] = L.bom THEN 1 ELSE 0, 0, <<>>)
 =============================================================================
